@@ -330,6 +330,45 @@ def venn_check(case):
     return Res(list(seen.items()), o=(nsort,), tr=ntr)
 
 
+# ------------------------------------------------------------------ spikes late in a very long recording (sample indices beyond 2**31)
+def venn_late_cases(tier, seed):
+    return [(nsort, base, dt) for nsort in (2, 3) for base in (0, 2 ** 31 - 600, 2 ** 31 + 12 * 5, 2 ** 32 + 12 * 7) for dt in ("int64", "uint64", "float64")]
+
+
+def venn_late_check(case):
+    """counts do not depend on where in the recording the spikes sit: the same trains shifted by a whole number of chunks give the same regions"""
+    nsort, base, dt = case
+    rng = _rng(7, nsort)
+    binsz = 30000                      # 1 s bins, chunks of 4096 bins: a 40 h recording is 36 chunks
+    chunk = binsz * 4096
+    v = []
+    samples, channels = [], []
+    common = np.sort(rng.choice(40, size=14, replace=False))
+    for k in range(nsort):
+        own = np.sort(rng.choice(np.arange(40, 80), size=6 + k, replace=False))
+        ss = np.sort(np.r_[common[k::2], own]).astype(np.int64) * binsz + 11 * (k + 1)
+        samples.append(ss)
+        channels.append(((ss // binsz * 7 + k) % 8).astype(np.int64))
+    fn = spiketrains.spikes_venn2 if nsort == 2 else spiketrains.spikes_venn3
+
+    def run(smp):
+        with contextlib.redirect_stdout(io.StringIO()), contextlib.redirect_stderr(io.StringIO()):
+            return fn(tuple(smp), tuple(channels), samples_binsize=binsz, channels_binsize=CHB, fs=30000, num_channels=8, chunk_size=chunk)
+    ref = run(samples)
+    shift = int(round(base / chunk)) * chunk          # a whole number of chunks: 0, ~2**31, ~2**32
+    try:
+        res = run([(s_ + shift).astype(dt) for s_ in samples])
+    except Exception as e:
+        return Res([("venn:late-spikes:exc", "%d sorters, spikes around sample %d (%s): %s: %s" % (nsort, shift, dt, type(e).__name__, e))])
+    for k in range(nsort):
+        tot = sum(int(c) for name, c in res.items() if name[k] == "1")
+        if tot != len(samples[k]):
+            v.append(("venn:conservation:late-spikes", "sorter %d has %d spikes around sample %d (%s), the regions containing it sum to %d" % (k, len(samples[k]), shift, dt, tot)))
+    if {a: int(b) for a, b in res.items()} != {a: int(b) for a, b in ref.items()}:
+        v.append(("venn:late-spikes", "the same trains shifted by %d samples (a whole number of chunks, %s) give %r instead of %r" % (shift, dt, dict(res), dict(ref))))
+    return Res(v, o=(nsort, base > 0), tr=2)
+
+
 # ------------------------------------------------------------------ stack
 def stack_cases(tier, seed):
     L = 5 if tier == "quick" else 6
@@ -376,6 +415,7 @@ CHECK = {
         Clause("savgol-lattice", "polynomials on integer time stamps with gaps (as produced by NaN removal)", cases=lattice_cases, check=lattice_check, setup=_setup),
         Clause("nan-fill", "smooth_interpolate_savgol fills every NaN pattern", cases=nan_cases, check=nan_check),
         Clause("venn", "spike coincidence counting conserves spikes for every small train and chunking", cases=venn_cases, check=venn_check),
+        Clause("venn-late", "spike trains with sample indices around and beyond 2**31 / 2**32 (int64, uint64, float64): every spike in exactly one region", cases=venn_late_cases, check=venn_late_check, setup=_setup),
         Clause("stack", "stack by label for every label vector", cases=stack_cases, check=stack_check, setup=_setup),
         _layouts.make_clause(__import__("checks._layout_specs", fromlist=["x"]).c20()),
     ],
